@@ -38,6 +38,15 @@ theorem cnt_false (docs : List Doc) : cnt docs (fun _ => false) = 0 := by
 
 /-- Union bound: documents holding some term of `ts` (in field `f`) are at most the sum of the
     document frequencies. -/
+theorem cnt_le_append (docs dead : List Doc) (p : Doc → Bool) : cnt docs p ≤ cnt (docs ++ dead) p := by
+  simp only [cnt, List.filter_append, List.length_append]
+  omega
+
+/-- The live documents holding `t` are at most `doc_frequency(f, t)` (which also counts deleted ones). -/
+theorem cnt_le_df (rd : Reader) (f : Field) (t : Text) :
+    cnt rd.docs (fun d => (d.toks f).contains t) ≤ rd.df f t :=
+  cnt_le_append rd.docs rd.dead _
+
 theorem cnt_any_le_sum (rd : Reader) (f : Field) (ts : List Text) :
     cnt rd.docs (fun d => ts.any fun t => (d.toks f).contains t) ≤ (ts.map (rd.df f)).sum := by
   induction ts with
@@ -45,7 +54,7 @@ theorem cnt_any_le_sum (rd : Reader) (f : Field) (ts : List Text) :
   | cons t ts ih =>
     simp only [List.any_cons, List.map_cons, List.sum_cons]
     have := cnt_or rd.docs (fun d => (d.toks f).contains t) (fun d => ts.any fun t => (d.toks f).contains t)
-    have hdf : cnt rd.docs (fun d => (d.toks f).contains t) = rd.df f t := rfl
+    have hdf := cnt_le_df rd f t
     omega
 
 theorem le_minList {c : Nat} : ∀ {l : List Nat} {m : Nat}, (∀ x ∈ l, c ≤ x) → minList l = some m → c ≤ m
@@ -120,7 +129,9 @@ theorem estimate_ge_aux (env : Env) (rd : Reader) (hdocs : rd.docs = env.index) 
     simp only [estimate, Option.some.injEq] at h
     subst h
     split
-    · simp only [Reader.df, hdocs, sat]; exact Nat.le_refl _
+    · have := cnt_le_df rd f t
+      rw [hdocs] at this
+      simpa only [sat] using this
     · rename_i hf
       have : cnt env.index (sat env (.term f t bo)) = 0 := by
         simp only [cnt, List.length_eq_zero_iff, List.filter_eq_nil_iff, sat]
@@ -196,7 +207,7 @@ theorem estimate_ge_aux (env : Env) (rd : Reader) (hdocs : rd.docs = env.index) 
         intro d _ hs
         simp only [sat] at hs
         simpa using phraseMatch_mem _ _ _ hs w hw
-      simpa [Reader.df, hdocs, cnt] using this
+      exact Nat.le_trans this (hdocs ▸ cnt_le_df rd f w)
     · rename_i hf
       have : cnt env.index (sat env (.phrase f ws slop bo)) = 0 := by
         simp only [cnt, List.length_eq_zero_iff, List.filter_eq_nil_iff, sat]
@@ -358,6 +369,137 @@ theorem estimateList_sum_aux (env : Env) (rd : Reader) (hdocs : rd.docs = env.in
     have : cnt env.index (satAny env (q :: qs)) = cnt env.index (fun d => sat env q d || satAny env qs d) := by
       simp only [satAny]
     omega
+end
+
+end WM.Normalize
+
+/-! ### `estimate_size` never raises
+
+The only partial operation of `estimate_size` is Python's `min()` of an empty sequence
+(`And.estimate_size`, and through it `Phrase`/`Sequence.estimate_size`); the model returns `none`
+there (and for span queries, whose estimate is not modelled). -/
+namespace WM.Normalize
+open WM.Sat
+
+mutual
+/-- No span query (opaque leaf) anywhere in the tree. -/
+def Q.spanFree : Q → Bool
+  | .opq _ _ => false
+  | .comp _ qs _ => Q.spanFreeList qs
+  | .seq _ qs _ _ _ => Q.spanFreeList qs
+  | .not q _ => Q.spanFree q
+  | .bin _ a b => Q.spanFree a && Q.spanFree b
+  | .const q _ => Q.spanFree q
+  | _ => true
+def Q.spanFreeList : List Q → Bool
+  | [] => true
+  | q :: qs => Q.spanFree q && Q.spanFreeList qs
+end
+
+theorem minList_isSome {l : List Nat} (h : l ≠ []) : ∃ m, minList l = some m := by
+  cases l with
+  | nil => exact absurd rfl h
+  | cons x xs => exact ⟨_, rfl⟩
+
+theorem estimateList_length (m : Nat → Field → Text → Nat → Text → Bool)
+    (br : Text → Option ((Nat → Bool) × Nat)) (rd : Reader) :
+    ∀ (qs : List Q) (es : List Nat), estimateList m br rd qs = some es → es.length = qs.length
+  | [], es, h => by
+    simp only [estimateList, Option.some.injEq] at h
+    subst h; rfl
+  | q :: qs, es, h => by
+    simp only [estimateList] at h
+    cases hq : estimate m br rd q <;> cases hqs : estimateList m br rd qs <;>
+      simp only [hq, hqs, Option.some.injEq] at h <;> try exact absurd h (by simp)
+    subst h
+    simp [estimateList_length m br rd qs _ hqs]
+
+mutual
+theorem estimate_total_aux (m : Nat → Field → Text → Nat → Text → Bool)
+    (br : Text → Option ((Nat → Bool) × Nat)) (rd : Reader) :
+    ∀ (q : Q), q.spanFree = true → ∃ n, estimate m br rd q = some n
+  | .null, _ => by simp only [estimate]; exact ⟨_, rfl⟩
+  | .every _ _, _ => by simp only [estimate]; exact ⟨_, rfl⟩
+  | .term _ _ _, _ => by simp only [estimate]; exact ⟨_, rfl⟩
+  | .pre _ _ _ _, _ => by simp only [estimate]; exact ⟨_, rfl⟩
+  | .wild _ _ _ _, _ => by simp only [estimate]; exact ⟨_, rfl⟩
+  | .multi _ _ _ _ _, _ => by simp only [estimate]; exact ⟨_, rfl⟩
+  | .range _ _ _ _ _ _ _, _ => by simp only [estimate]; exact ⟨_, rfl⟩
+  | .phrase f ws _ _, _ => by
+    simp only [estimate]
+    by_cases hw : ws.isEmpty = true
+    · exact ⟨0, by simp [hw]⟩
+    · simp only [hw, Bool.false_eq_true, if_false]
+      apply minList_isSome
+      intro e
+      have : ws = [] := by simpa using e
+      simp [this] at hw
+  | .comp .and qs _, h => by
+    simp only [Q.spanFree] at h
+    obtain ⟨es, hes⟩ := estimateList_total_aux m br rd qs h
+    simp only [estimate]
+    by_cases hq : qs.isEmpty = true
+    · exact ⟨0, by simp [hq]⟩
+    · simp only [hq, Bool.false_eq_true, if_false, hes, Option.bind_some]
+      apply minList_isSome
+      intro e
+      have hl := estimateList_length m br rd qs es hes
+      subst e
+      have : qs = [] := by simpa using hl.symm
+      simp [this] at hq
+  | .comp .or qs _, h => by
+    simp only [Q.spanFree] at h
+    obtain ⟨es, hes⟩ := estimateList_total_aux m br rd qs h
+    exact ⟨Nat.min es.sum rd.docCount, by simp only [estimate, hes, Option.map_some]⟩
+  | .comp .dismax qs _, h => by
+    simp only [Q.spanFree] at h
+    obtain ⟨es, hes⟩ := estimateList_total_aux m br rd qs h
+    exact ⟨Nat.min es.sum rd.docCount, by simp only [estimate, hes, Option.map_some]⟩
+  | .seq _ qs _ _ _, h => by
+    simp only [Q.spanFree] at h
+    obtain ⟨es, hes⟩ := estimateList_total_aux m br rd qs h
+    simp only [estimate]
+    by_cases hq : qs.isEmpty = true
+    · exact ⟨0, by simp [hq]⟩
+    · simp only [hq, Bool.false_eq_true, if_false, hes, Option.bind_some]
+      apply minList_isSome
+      intro e
+      have hl := estimateList_length m br rd qs es hes
+      subst e
+      have : qs = [] := by simpa using hl.symm
+      simp [this] at hq
+  | .not _ _, _ => by simp only [estimate]; exact ⟨_, rfl⟩
+  | .bin .require a b, h => by
+    simp only [Q.spanFree, Bool.and_eq_true] at h
+    simpa only [estimate] using estimate_total_aux m br rd b h.2
+  | .bin .andnot a b, h => by
+    simp only [Q.spanFree, Bool.and_eq_true] at h
+    obtain ⟨x, hx⟩ := estimate_total_aux m br rd a h.1
+    obtain ⟨y, hy⟩ := estimate_total_aux m br rd b h.2
+    exact ⟨(x + y).min rd.docCount, by simp only [estimate, hx, hy]⟩
+  | .bin .andmaybe a b, h => by
+    simp only [Q.spanFree, Bool.and_eq_true] at h
+    obtain ⟨x, hx⟩ := estimate_total_aux m br rd a h.1
+    obtain ⟨y, hy⟩ := estimate_total_aux m br rd b h.2
+    exact ⟨(x + y).min rd.docCount, by simp only [estimate, hx, hy]⟩
+  | .bin .otherwise a b, h => by
+    simp only [Q.spanFree, Bool.and_eq_true] at h
+    obtain ⟨x, hx⟩ := estimate_total_aux m br rd a h.1
+    obtain ⟨y, hy⟩ := estimate_total_aux m br rd b h.2
+    exact ⟨(x + y).min rd.docCount, by simp only [estimate, hx, hy]⟩
+  | .const q _, h => by
+    simp only [Q.spanFree] at h
+    simpa only [estimate] using estimate_total_aux m br rd q h
+  | .opq _ _, h => by simp [Q.spanFree] at h
+theorem estimateList_total_aux (m : Nat → Field → Text → Nat → Text → Bool)
+    (br : Text → Option ((Nat → Bool) × Nat)) (rd : Reader) :
+    ∀ (qs : List Q), Q.spanFreeList qs = true → ∃ es, estimateList m br rd qs = some es
+  | [], _ => ⟨[], rfl⟩
+  | q :: qs, h => by
+    simp only [Q.spanFreeList, Bool.and_eq_true] at h
+    obtain ⟨e, he⟩ := estimate_total_aux m br rd q h.1
+    obtain ⟨es, hes⟩ := estimateList_total_aux m br rd qs h.2
+    exact ⟨e :: es, by simp only [estimateList, he, hes]⟩
 end
 
 end WM.Normalize
